@@ -14,7 +14,7 @@ VARIABLE sc
 Seed == atoi(IOEnv.VERIF_SEED)
 PV(s, a, b, c) == Q(((7 * a + 3 * b + 5 * c + 11 * s) % 9) - 4, 2)
 
-ExprIds == {"d1", "d2", "d3", "d4", "d5", "d6", "d7", "d8"}
+ExprIds == {"d1", "d2", "d3", "d4", "d5", "d6", "d7", "d8", "d9"}
 ExprOf(id) == CASE id = "d1" -> Sq(X(1))
                 [] id = "d2" -> Times(X(1), Tm)
                 [] id = "d3" -> Plus(Times(X(1), X(1)), Sq(Tm))
@@ -22,12 +22,13 @@ ExprOf(id) == CASE id = "d1" -> Sq(X(1))
                 [] id = "d5" -> Sq(Plus(X(1), Tm))
                 [] id = "d6" -> X(1)
                 [] id = "d8" -> Times(Sq(Tm), Plus(Tm, CI(3)))
+                [] id = "d9" -> Plus(Times(X(5), X(2)), Times(X(4), Tm))        \* members of a matrix state and the scalar declared after it (R9)
                 [] id = "d7" -> Minus(Times(Times(X(1), X(1)), X(1)), Times(CI(3), Tm))
-Space == [rhs : {"R1", "R2", "R3", "R4", "R5"}, e : ExprIds, seed : {Seed, Seed + 1, Seed + 2}, order : {1, 2}]
+Space == [rhs : {"R1", "R2", "R3", "R4", "R5", "R9"}, e : ExprIds, seed : {Seed, Seed + 1, Seed + 2}, order : {1, 2}]
 Uses2(e) == FALSE
 \* the derivative of an expression of the states mentions the controls, for which der() is documented to raise:
 \* second derivatives are taken of pure time expressions only
-Init == sc \in {s \in Space : (s.e = "d4" => s.rhs \in {"R2", "R3", "R4"}) /\ (s.order = 2 => s.e = "d8")}
+Init == sc \in {s \in Space : (s.e = "d4" => s.rhs \in {"R2", "R3", "R4", "R9"}) /\ (s.order = 2 => s.e = "d8") /\ (s.e = "d9" <=> s.rhs = "R9")}
 Next == UNCHANGED sc
 
 Point(d, s) == [x |-> Tup([i \in 1..Len(d.states) |-> PV(s, 1, 1, i)]), u |-> Tup([i \in 1..Len(d.controls) |-> PV(s, 2, 1, i)]),
